@@ -318,12 +318,7 @@ def check(chk, repo, tier):
     # ---- base conversion elements ------------------------------------------------------------------
     tb = elements.function("to_base")
     fb = elements.function("from_base")
-    ok = any("len(rhs) ** i" in ast.unparse(n) or "len(rhs)**i" in
-             ast.unparse(n).replace(" ", "") for n in ast.walk(tb)
-             if isinstance(n, ast.Call) and dotted(n.func) == "divmod")
-    chk.ob("C15.base-elements", "elements.to_base", ok,
-           "to_base must take digits with divmod(value, len(alphabet) ** i)",
-           LF, tb.lineno)
+    to_base_model(chk, repo, LF, tb)
     calls = {(dotted(c.func) or "").split(".")[-1] for c in ast.walk(fb)
              if isinstance(c, ast.Call)}
     chk.ob("C15.base-elements", "elements.from_base",
@@ -339,8 +334,72 @@ def check(chk, repo, tier):
         "the same alphabet constants on both sides (and compose from/to in "
         "mirrored order); one-digit dictionary indices are padded with the "
         "alphabet's zero digit; the dictionary fits in two digits; lookup is "
-        "the inverse of contents. Does not decide the arithmetic of to_base "
-        "(its digit count comes from a float logarithm).")
+        "the inverse of contents. to_base itself is interpreted on every n "
+        "up to base**3 + 1 and around base**k (k <= 40) for bases 2..7, 10, "
+        "16, 255 (bounded, not exhaustive): digits in range, most "
+        "significant first, value preserved.")
+
+
+def to_base_model(chk, repo, LF, tb):
+    """elements.to_base interpreted (vystatic.pe) with `index` replaced by a
+    strict digit lookup: every digit must be a valid position of the
+    alphabet, and the digits must denote the number."""
+    from ..pe import Interp, PRaise, StubModule, Unsupported
+    from .c08 import TOWER
+    it = Interp(repo)
+    it.stubs["sympy"] = StubModule("sympy", dict(TOWER))
+    el = it.module("vyxal.elements")
+    out_of_range = []
+
+    def strict_index(fn, args, kwargs):
+        seq, pos = args[0], args[1]
+        if not isinstance(pos, int) or isinstance(pos, bool) \
+                or not 0 <= pos < len(seq):
+            out_of_range.append(pos)
+            return seq[pos % len(seq)] if isinstance(pos, int) else seq[0]
+        return seq[pos]
+    it.intercepts[("vyxal.elements", "index")] = strict_index
+    try:
+        f = el.get("to_base")
+        ctx = it.instantiate(it.module("vyxal.context").get("Context"),
+                             [], {})
+    except KeyError as exc:
+        raise AnalysisError(f"anchor vanished: {exc}") from None
+    bad = None
+    n_runs = 0
+    for b in (2, 3, 4, 5, 6, 7, 10, 16, 255):
+        ns = set(range(0, min(b ** 3 + 2, 1200)))
+        for k in range(1, 41):
+            ns |= {b ** k - 1, b ** k, b ** k + 1}
+        for n in sorted(ns):
+            del out_of_range[:]
+            it.steps = 0
+            n_runs += 1
+            try:
+                d = f(n, b, ctx)
+            except PRaise as exc:
+                bad = bad or (n, b, f"raises {exc.cls_name}{exc.pargs}")
+                continue
+            except Unsupported as exc:
+                raise AnalysisError(
+                    "to_base uses a construct the interpreter does not "
+                    f"model: {exc}") from None
+            val = 0
+            okd = isinstance(d, list) and len(d) >= 1 and not out_of_range
+            if okd:
+                for x in d:
+                    okd = okd and isinstance(x, int) and 0 <= x < b
+                    val = val * b + (x if isinstance(x, int) else 0)
+            if not okd or val != n:
+                bad = bad or (n, b, f"gives {d!r:.60}"
+                              + (f" (digit {out_of_range[0]} outside the "
+                                 "base)" if out_of_range else ""))
+    chk.unit("to_base runs (interpreted, bounded)", n_runs)
+    chk.ob("C15.base-conversion-digits", "elements.to_base", bad is None,
+           f"to_base({bad[0]}, {bad[1]}) {bad[2]}: the digits must be inside "
+           "the base and denote the number" if bad else "", LF, tb.lineno,
+           witness=f"{bad[0]} {bad[1]} τ" if bad else None,
+           sample={"runs": n_runs})
 
 
 def _dictionary_size(dmod):
